@@ -176,7 +176,7 @@ def run_shard(ctx, shard):
         for blocks in parts:
             res, single, d = judge_history(n, matrix, blocks, single, acc)
             cross = _crosses(n, matrix, blocks)
-            acc.case(outcome=repr(sorted((k, len(v)) for k, v in d.items())) + repr(d["m_to"][:3]))
+            acc.case(outcome=repr(sorted(d.items())))
             acc.count("add_orders_run")
             acc.count("partitions_with_%d_dex" % len(blocks))
             acc.count("cross_dex_interactions", cross)
